@@ -183,6 +183,7 @@ type CRLPlan struct {
 	IDPCritical bool
 	UnknownCrit bool
 	UnknownNon  bool
+	EarlyThis   bool // delta: its thisUpdate lies before the base list's (a larger number all the same)
 	Entries     []EntryPlan
 }
 
